@@ -64,7 +64,7 @@ def renamable(fn) -> Set[str]:
     return {s for s in stores - blocked if not s.startswith("__") and s.strip("_")}
 
 
-def alpha_rename(src: str, suffix: str = "_rn") -> Tuple[str, int]:
+def alpha_rename(src: str, suffix: str = "_rn", annotate: bool = True) -> Tuple[str, int]:
     """Returns (new source, number of renamed occurrences). Only top-level functions and methods are treated (their
     nested scopes are renamed consistently or the name is left alone)."""
     tree = ast.parse(src)
@@ -83,9 +83,16 @@ def alpha_rename(src: str, suffix: str = "_rn") -> Tuple[str, int]:
             continue
         taken = {x.id for x in ast.walk(fn) if isinstance(x, ast.Name)} | _params(fn)
         names = {x for x in names if x + suffix not in taken}
+        # plain single-target assignments to a renamed local also get an annotation (`x_rn: object = v`): annotations
+        # of locals are not evaluated, so this is behaviour-preserving too
+        annotated = set()
+        if annotate:
+            for st in ast.walk(fn):
+                if isinstance(st, ast.Assign) and len(st.targets) == 1 and isinstance(st.targets[0], ast.Name) and st.targets[0].id in names:
+                    annotated.add(id(st.targets[0]))
         for x in ast.walk(fn):
             if isinstance(x, ast.Name) and x.id in names and x.end_lineno == x.lineno:
-                edits.append((x.lineno, x.col_offset, x.end_col_offset, x.id + suffix))
+                edits.append((x.lineno, x.col_offset, x.end_col_offset, x.id + suffix + (": object" if id(x) in annotated else "")))
     by_line: Dict[int, List[Tuple[int, int, str]]] = {}
     for ln, c0, c1, new in edits:
         by_line.setdefault(ln, []).append((c0, c1, new))
